@@ -289,6 +289,8 @@ type Live struct {
 	ERS *ersctrl.Reconciler
 	Set *setctrl.Reconciler
 	PT  *ptctrl.Reconciler
+	// PreERS: the replica sets as they were just before the last R_eds of a closure round (for OnStep oracles).
+	PreERS []v1.ExtendedDaemonSetReplicaSet
 }
 
 type nopRecorder struct{}
